@@ -40,7 +40,7 @@ SITES = [
     "block.renamed", "block.marked_deletable", "fileutil.renamed", "fileutil.replace.dest_removed",
     "db.compact_head.written", "db.compact_head.reloaded", "db.compact_ooo.written", "db.compact_ooo.reloaded",
     "db.reload.pre_swap", "db.reload.swapped", "db.delete.closed", "db.delete.renamed", "db.delete.removed",
-    "db.open.tmp_cleaned", "db.open.reloaded", "db.open.head_init_failed", "db.open.done", "head.close.mmapped", "head.close.done", "closed",
+    "db.open.tmp_cleaned", "db.open.reloaded", "db.open.head_init_failed", "db.open.done", "head.close.mmapped", "cdm.closed", "head.close.done", "closed",
 ]
 
 DB_FILES = None
